@@ -220,6 +220,41 @@ func RunCheck(opts RunOpts, t0 time.Time) (*Outcome, error) {
 		return true
 	}
 	results := vc.Solve(vcs, so, filter)
+	// Stability: an obligation that was discharged on the unchanged tree and now comes back without an answer
+	// (unknown / timeout, e.g. under machine load) is retried alone with three times the budget before it is reported.
+	if !opts.WriteBaseline {
+		var retry []int
+		for i, r := range results {
+			if r == nil || r.Status != "undecided" {
+				continue
+			}
+			bf := baseline.Functions[r.Obl.Func]
+			if bf != nil && (bf.Clean || containsBase(bf.Obligations, r.Obl.Name)) {
+				retry = append(retry, i)
+			}
+		}
+		if len(retry) > 0 && len(retry) <= 40 {
+			so2 := so
+			so2.Timeout1, so2.Timeout2, so2.Workers = so.Timeout1*3, so.Timeout2*3, 4
+			so2.Dir = filepath.Join(dir, "retry")
+			sem := make(chan struct{}, 4)
+			done := make(chan struct{})
+			for _, i := range retry {
+				i := i
+				go func() {
+					sem <- struct{}{}
+					r2 := vc.SolveOneExported(results[i].VC, results[i].Obl, 900000+i, so2)
+					r2.TimeS += results[i].TimeS
+					results[i] = r2
+					<-sem
+					done <- struct{}{}
+				}()
+			}
+			for range retry {
+				<-done
+			}
+		}
+	}
 	out.Results = results
 
 	// verdicts
